@@ -18,7 +18,27 @@ C05_MODULES = ["contracts.core_models", "contracts.c09_arith", "contracts.c09_bo
 
 C13_MODULES = ["contracts.core_models", "contracts.c09_bounded", "contracts.c13_types", "contracts.c13_views"]
 
+C06_MODULES = C05_MODULES + ["contracts.c13_types", "contracts.c06_names", "contracts.c06_ports", "contracts.c06_stmts"]
+
 PROPERTIES = {
+    "C06": {
+        "modules": C06_MODULES,
+        "level": "proof",
+        "explanation": "clauses of C06 that are per-function facts are proved from the real source: name uniquification (complete_setup, loop invariants over uninterpreted strings: every name is new in its scope chain and against all reserved words), entity header names = architecture names, case statements end in `when others`, sensitivity join, cast typing (format_cast lemma shared with C05); two finite enumerations over the emitter source (reserved set covers every emitted predefined identifier; text templates have balanced parentheses)",
+        "assumptions": COMMON_ASSUME + VHDL_ASSUME + [
+            "strings are uninterpreted (sort Str with lower/strip/concat/str(int) uninterpreted): no character-level reasoning; user names are assumed to be VHDL basic identifiers up to leading/trailing underscores",
+            "termination of the doubling loop of the name search is not proved",
+            "expression / block writers are separate units: in statement-level contracts they only produce opaque text",
+            "NOT decided: that a standards-conforming tool accepts the whole text; distinctness of user-written case choices; completeness of the inferred sensitivity list (closure inside VhdlAssembler.apply); output ports never read (AliasScope) -- no contract yet",
+        ],
+        "extra": ["contracts.c06_extra.reserved_covers_emitted", "contracts.c06_extra.balanced_templates"],
+        "canaries": [
+            {"name": "halving-loop-case", "contract": "cohdl._compiler.backend.vhdl._vhdl_repr:VhdlScope.complete_setup", "case": "signal-named-top", "file": "cohdl/_compiler/backend/vhdl/_vhdl_repr.py",
+             "old": "                    if name.lower() not in used_names:\n                        cnt -= step", "new": "                    if name not in used_names:\n                        cnt -= step"},
+            {"name": "port-name-check", "contract": "cohdl._compiler.backend.vhdl._vhdl_repr:Entity._port_declarations", "case": "in-out@1", "file": "cohdl/_compiler/backend/vhdl/_vhdl_repr.py",
+             "old": "                scope_name == name\n            ), f\"invalid port name", "new": "                scope_name == name or True\n            ), f\"invalid port name"},
+        ],
+    },
     "C13": {
         "modules": C13_MODULES,
         "level": "proof",
